@@ -6,10 +6,11 @@ import Model.Driver
 import Model.Lines
 import Model.HelpersDriver
 import Model.CliDriver
+import Model.IterDriver
 
 namespace Model
 
-def handlers : List (String → Req → Option String) := [handleCore, Lines.handle, Helpers.handle, CliDriver.handle]
+def handlers : List (String → Req → Option String) := [handleCore, Lines.handle, Helpers.handle, CliDriver.handle, Iter.handle]
 
 def handle (line : String) : String :=
   let (cmd, r) := parseReq line
